@@ -20,12 +20,17 @@ def S(term: str, i: int) -> Lane:
     return ("s", term, i)
 
 
+def N(term: str, i: int) -> Lane:
+    """NOT bit i of `term` (only produced by `not x`; every other operator treats it as an unknown function)."""
+    return ("n", term, i)
+
+
 def T(*deps) -> Lane:
     d = set()
     for x in deps:
         if isinstance(x, (set, frozenset)):
             d |= x
-        elif isinstance(x, tuple) and x and x[0] == "s":
+        elif isinstance(x, tuple) and x and x[0] in ("s", "n"):
             d.add(x[1])
         elif isinstance(x, tuple) and x and x[0] == "T":
             d |= x[1]
@@ -38,7 +43,7 @@ def is_top(l: Lane) -> bool:
 
 def deps(l: Lane) -> FrozenSet[str]:
     if isinstance(l, tuple):
-        if l[0] == "s":
+        if l[0] in ("s", "n"):
             return frozenset([l[1]])
         return l[1]
     return frozenset()
@@ -92,6 +97,8 @@ class BV:
                 out.append(str(l))
             elif l[0] == "s":
                 out.append(f"{l[1]}[{l[2]}]")
+            elif l[0] == "n":
+                out.append(f"¬{l[1]}[{l[2]}]")
             else:
                 out.append("T{" + ",".join(sorted(l[1])) + "}")
         while out and out[-1] == "0":
@@ -225,11 +232,24 @@ class BitEval:
         self.env = dict(env)
         self.fresh = 0
         self.notes: List[str] = []
+        self.alias: Dict[str, ast.expr] = {}      # local name -> attribute chain it abbreviates (`flags = Base.Flags`)
 
     # -------------------------------------------------------------- expressions
     def ev(self, e: ast.expr, depth: int = 0) -> BV:
         if depth > 30:
             raise Unsupported("too deep")
+        if self.alias and isinstance(e, (ast.Attribute, ast.Subscript)):
+            root = e
+            while isinstance(root, (ast.Attribute, ast.Subscript)):
+                root = root.value
+            if isinstance(root, ast.Name) and root.id in self.alias:
+                import copy
+                e = copy.deepcopy(e)
+                par = e
+                while isinstance(par.value, (ast.Attribute, ast.Subscript)):
+                    par = par.value
+                par.value = copy.deepcopy(self.alias[root.id])
+                ast.fix_missing_locations(e)
         try:
             c = self.repo.fold(e, ci=self.ci)
             if isinstance(c, bool):
@@ -342,6 +362,9 @@ class BitEval:
         nz = a.nonzero_lanes()
         if not negate and len(nz) == 1 and not is_top(a.lanes[nz[0]]) and a.lanes[nz[0]] != 1:
             return BV([a.lanes[nz[0]]] + [0] * (W - 1))
+        if negate and len(nz) == 1 and not is_top(a.lanes[nz[0]]) and a.lanes[nz[0]] != 1:
+            l = a.lanes[nz[0]]
+            return BV([(N if l[0] == "s" else S)(l[1], l[2])] + [0] * (W - 1))
         if a.is_const():
             v = int(bool(a.const_value()))
             return BV.const(1 - v if negate else v)
@@ -434,9 +457,41 @@ class BitEval:
                 self._assign(st.target, cur)
             elif isinstance(st, ast.Return):
                 return self.ev(st.value) if st.value is not None else None
+            elif isinstance(st, ast.If):
+                self._if(st)
             else:
                 raise Unsupported(f"statement {type(st).__name__}: {norm(st)[:60]}")
         return None
+
+    def _if(self, st: ast.If):
+        """Branches without `return`: every variable becomes the lane-wise mux of the two branch values."""
+        c = self._bool(self.ev(st.test)).lanes[0]
+        if c in (0, 1):
+            if self.run(st.body if c else st.orelse) is not None:
+                raise Unsupported("return inside a conditional")
+            return
+        base = dict(self.env)
+        if self.run(st.body) is not None:
+            raise Unsupported("return inside a conditional")
+        e1 = self.env
+        self.env = dict(base)
+        if self.run(st.orelse) is not None:
+            raise Unsupported("return inside a conditional")
+        e2 = self.env
+        out = {}
+        for k in set(e1) | set(e2):
+            a = e1.get(k) or BV.term(k)
+            b = e2.get(k) or BV.term(k)
+            lanes = []
+            for x, y in zip(a.lanes, b.lanes):
+                if x == y:
+                    lanes.append(x)
+                elif y == 0:
+                    lanes.append(_and(c, x))
+                else:
+                    lanes.append(T(c, x, y))
+            out[k] = BV(lanes)
+        self.env = out
 
     def _assign(self, target: ast.expr, value: ast.expr):
         if isinstance(target, ast.Tuple) and len(target.elts) == 1:
@@ -444,6 +499,14 @@ class BitEval:
         key = self._key(target)
         if key is None:
             raise Unsupported(f"assignment target {norm(target)}")
+        if isinstance(target, ast.Name) and attr_chain(value) is not None and attr_chain(value)[0] != "self" \
+                and self._key(value) not in self.env:
+            try:
+                self.repo.fold(value, ci=self.ci)
+            except NotConst:
+                # a class / module reference (`flags = BaseSampler.EnvelopeFlags`): abbreviation, not a value
+                self.alias[target.id] = value
+                return
         self.env[key] = self.ev(value)
 
 
